@@ -1,9 +1,11 @@
 (* C10 — `hera preprocess` prints a program that means the same as its input (PARTIAL).
-   Theorem here: the string-literal codec — what op.string_literal prints (Model/Printer.v) the
+   Proved here: the string-literal codec — what op.string_literal prints (Model/Printer.v) the
    lexer (Model/Lexer.v) reads back as the same string, for every string, in any context, with no
    warning.  The OPCODE words of the --obfuscate form are the C05 codec theorems
-   (assemble/disassemble inverse on all 65536 words).  Operand printing of integers, registers and
-   symbols and the listing format are decided by the round-trip oracle on the real tool. *)
+   (assemble/disassemble inverse on all 65536 words); their printed form OPCODE(0x...) and every integer operand as
+   printed (Model/IntLit.v: str(value) read back by the parser's match_value / match_int) read back to the same
+   value.  Operand printing of registers and symbols and the listing format are decided by the round-trip oracle
+   on the real tool. *)
 From Coq Require Import ZArith List Bool.
 From Hera.Model Require Import Lexer Printer.
 From Hera.Proofs Require Import C10_Strings.
@@ -22,3 +24,26 @@ Example C10_example :
   let v := [34; 92; 10; 13; 200; 300; 65] in
   fst (fst (next_token (start (string_literal v ++ [41])))) = mktok T_STRING v 1 1 0.
 Proof. vm_compute. reflexivity. Qed.
+
+(* integer operands: what the listing prints for a value of the operand range is read back by the parser as that
+   value, and the OPCODE(0x...) form of an instruction word reads back and decodes to the instruction *)
+From Hera.Spec Require Import ISA EncTable.
+From Hera.Model Require Import IntLit.
+From Hera.Proofs Require Import C10_IntLit.
+Theorem C10_printed_integer_reads_back : forall n, -32768 <= n < 65536 -> read_value (print_int n) = Some n.
+Proof. exact printed_int_reads_back. Qed.
+Print Assumptions C10_printed_integer_reads_back.
+
+Theorem C10_obfuscated_word_reads_back : forall w, 0 <= w < 65536 -> read_value (print_opcode_word w) = Some w.
+Proof. exact printed_word_reads_back. Qed.
+Print Assumptions C10_obfuscated_word_reads_back.
+
+Theorem C10_obfuscated_instr_reads_back : forall i, valid_instr i = true ->
+  match read_value (print_opcode_word (word_of i)) with Some w => decode_word w | None => None end = Some (canon i).
+Proof. exact obfuscated_instr_reads_back. Qed.
+Print Assumptions C10_obfuscated_instr_reads_back.
+
+Example C10_int_example :
+  print_int (-128) = [45; 49; 50; 56] /\ read_value [45; 48; 120; 49; 70] = Some (-31) /\
+  read_value [48; 49; 55] = Some 15 /\ read_value [48; 57] = None.
+Proof. vm_compute. repeat split. Qed.
